@@ -753,4 +753,227 @@ theorem VC.allows_eq_plain (c : VC) (hok : ∀ rs, c = .union rs → UnionOK rs)
   | single x => simpa [VC.allows, VC.allowsPlain, VC.flatten] using h.symm
   | union rs => exact union_allows_eq_plain rs (hok rs rfl) p hp hreg b h
 
+/-! ### totality, when no bound is a local build -/
+
+theorem rngDifferenceVer_ok (r : VRange) (v : Version) (hr : r.WF) (htr : r.Tidy) (hv : v.wf = true)
+    (hvreg : Regular r.bounds v) (hl1 : ∀ m, r.min = some m → m.isLocal = false) (hl2 : v.isLocal = false) :
+    ∃ d, RC.rngDifferenceVer r v = .ok d := by
+  unfold RC.rngDifferenceVer
+  by_cases h1 : r.allows v = true
+  · simp only [h1, Bool.not_true, Bool.false_eq_true, if_false]
+    have hraw := (VRange.allows_iff_raw r v hr.1 hv hvreg).1 h1
+    by_cases h2 : optVerEq (some v) r.min = true
+    · simp only [h2, if_true]; split <;> exact ⟨_, rfl⟩
+    · simp only [h2, Bool.false_eq_true, if_false]
+      by_cases h3 : optVerEq (some v) r.max = true
+      · simp only [h3, if_true]; split <;> exact ⟨_, rfl⟩
+      · simp only [h3, Bool.false_eq_true, if_false]
+        have hlo : ∀ m, r.min = some m → vk m < vk v := by
+          intro m hm
+          have hne : vk v ≠ vk m := by
+            intro e; simp [hm, optVerEq, (eqv_iff _ _).2 e] at h2
+          have := hraw.1
+          simp only [VRange.denLo, hm] at this
+          cases hi : r.imin <;> simp [hi] at this
+          · exact this
+          · exact lt_of_le_of_ne this (fun e => hne e.symm)
+        have hhi : ∀ M, r.max = some M → vk v < vk M := by
+          intro M hM
+          have hne : vk v ≠ vk M := by
+            intro e; simp [hM, optVerEq, (eqv_iff _ _).2 e] at h3
+          have := hraw.2
+          simp only [VRange.rawHi, hM] at this
+          cases hi : r.imax <;> simp [hi] at this
+          · exact this
+          · exact lt_of_le_of_ne this hne
+        have hgood : Good [RC.rng ⟨r.min, some v, r.imin, false⟩, RC.rng ⟨some v, r.max, false, r.imax⟩] := by
+          intro c hc
+          simp only [List.mem_cons, List.mem_nil_iff, or_false] at hc
+          rcases hc with rfl | rfl
+          · refine ⟨⟨?_, ?_⟩, ⟨fun e => htr.1 e, fun e => by simp at e⟩⟩
+            · intro e he
+              simp only [VRange.bounds, List.mem_append, Option.mem_toList] at he
+              rcases he with he | he
+              · exact hr.1 e (VRange.mem_bounds_min he)
+              · simp at he; subst he; exact hv
+            · intro m M hm hM; simp at hM; subst hM; exact hlo m hm
+          · refine ⟨⟨?_, ?_⟩, ⟨fun e => by simp at e, fun e => htr.2 e⟩⟩
+            · intro e he
+              simp only [VRange.bounds, List.mem_append, Option.mem_toList] at he
+              rcases he with he | he
+              · simp at he; subst he; exact hv
+              · exact hr.1 e (VRange.mem_bounds_max he)
+            · intro m M hm hM; simp at hm; subst hm; exact hhi M hM
+        have hn : NoLocalLower [RC.rng ⟨r.min, some v, r.imin, false⟩, RC.rng ⟨some v, r.max, false, r.imax⟩] := by
+          intro c hc m hm
+          simp only [List.mem_cons, List.mem_nil_iff, or_false] at hc
+          rcases hc with rfl | rfl
+          · exact hl1 m hm
+          · simp [RC.min] at hm; subst hm; exact hl2
+        obtain ⟨res, hres, _⟩ := unionOfFlat_total _ hgood hn
+        exact ⟨res, hres⟩
+  · exact ⟨.single (.rng r), by simp [h1]⟩
+
+/-- bounds that are not local builds -/
+def NoLocal (B : List Version) : Prop := ∀ e ∈ B, e.isLocal = false
+
+theorem difference_ok {B : List Version} (hB : MutReg B) (hN : NoLocal B) (cur r : RC) (hc : cur.WF)
+    (hct : cur.Tidy) (hr : r.WF) (hrt : r.Tidy) (hcb : ∀ e ∈ cur.bounds, e ∈ B) (hrb : ∀ e ∈ r.bounds, e ∈ B) :
+    ∃ d, RC.difference cur r = .ok d := by
+  have hside := side_of_mutReg hB cur r hc hr hcb hrb
+  cases cur with
+  | ver a => exact ⟨_, rfl⟩
+  | rng a =>
+    cases r with
+    | ver v =>
+      exact rngDifferenceVer_ok a v hc hct hr ((hside a rfl).2 v rfl)
+        (fun m hm => hN m (hcb m (VRange.mem_bounds_min hm))) (hN v (hrb v (by simp [RC.bounds_ver])))
+    | rng b =>
+      obtain ⟨res, hres, _⟩ := VRange.difference_total a b hc hr hct hrt ((hside a rfl).1 b rfl) (by
+        intro m hm
+        rcases hm with h | h | h
+        · exact hN m (hcb m (VRange.mem_bounds_min h))
+        · exact hN m (hcb m (VRange.mem_bounds_max h))
+        · exact hN m (hrb m (VRange.mem_bounds_max h)))
+      exact ⟨res, hres⟩
+
+theorem noLocalLower_of_bounds {B : List Version} (hN : NoLocal B) (l : List RC)
+    (hb : ∀ e ∈ boundsOf l, e ∈ B) : NoLocalLower l := by
+  intro c hc m hm
+  apply hN m (hb m (mem_boundsOf hc ?_))
+  cases c with
+  | ver x => simp [RC.min] at hm; subst hm; simp [RC.bounds_ver]
+  | rng r => exact VRange.mem_bounds_min hm
+
+theorem finish_ok {B : List Version} (hN : NoLocal B) (cur : RC) (ranges : List RC) (hc : cur.WF) (hct : cur.Tidy)
+    (hg : Good ranges) (hb : ∀ e, (e ∈ cur.bounds ∨ e ∈ boundsOf ranges) → e ∈ B) :
+    ∃ res, VC.rngDiffFinish cur ranges = .ok res := by
+  unfold VC.rngDiffFinish
+  split
+  · exact ⟨_, rfl⟩
+  · have hg' : Good (ranges ++ [cur]) := by
+      intro c hc'
+      simp only [List.mem_append, List.mem_singleton] at hc'
+      rcases hc' with h1 | rfl
+      · exact hg c h1
+      · exact ⟨hc, hct⟩
+    obtain ⟨res, hres, _⟩ := unionOfFlat_total _ hg' (noLocalLower_of_bounds hN _ (by
+      intro e he
+      simp only [boundsOf, List.flatMap_append, List.flatMap_cons, List.flatMap_nil, List.append_nil,
+        List.mem_append] at he
+      rcases he with h | h
+      · exact hb e (Or.inr h)
+      · exact hb e (Or.inl h)))
+    exact ⟨res, hres⟩
+
+/-- **`VersionRange.difference(VersionUnion)` always returns** when no bound in play is a local build -/
+theorem rngDiffUnionLoop_total (B : List Version) (hB : MutReg B) (hN : NoLocal B) :
+    ∀ (rs : List RC) (cur : RC) (ranges : List RC),
+    (∀ c ∈ rs, UMember c) → cur.WF → cur.Tidy → Good ranges →
+    (∀ e, (e ∈ boundsOf rs ∨ e ∈ cur.bounds ∨ e ∈ boundsOf ranges) → e ∈ B) →
+    ∃ res, VC.rngDiffUnionLoop rs cur ranges = .ok res
+  | [], cur, ranges, _, hc, hct, hg, hb => by
+    simp only [VC.rngDiffUnionLoop]
+    exact finish_ok hN cur ranges hc hct hg (fun e he => hb e (Or.inr he))
+  | r :: rest, cur, ranges, hm, hc, hct, hg, hb => by
+    have hrm := hm r (by simp)
+    have hrestm : ∀ c ∈ rest, UMember c := fun c hc' => hm c (by simp [hc'])
+    have hrb : ∀ e ∈ r.bounds, e ∈ B := fun e he =>
+      hb e (Or.inl (by simp only [boundsOf, List.flatMap_cons, List.mem_append]; exact Or.inl he))
+    have hrestb : ∀ e ∈ boundsOf rest, e ∈ B := fun e he =>
+      hb e (Or.inl (by simp only [boundsOf, List.flatMap_cons, List.mem_append]; exact Or.inr he))
+    have hcb : ∀ e ∈ cur.bounds, e ∈ B := fun e he => hb e (Or.inr (Or.inl he))
+    have hgb : ∀ e ∈ boundsOf ranges, e ∈ B := fun e he => hb e (Or.inr (Or.inr he))
+    simp only [VC.rngDiffUnionLoop, VRange.isStrictlyHigher]
+    by_cases h1 : r.view.isStrictlyLower cur.view = true
+    · simp only [h1, if_true]
+      exact rngDiffUnionLoop_total B hB hN rest cur ranges hrestm hc hct hg (by
+        intro e he
+        rcases he with h' | h' | h'
+        · exact hrestb e h'
+        · exact hcb e h'
+        · exact hgb e h')
+    · simp only [h1, Bool.false_eq_true, if_false]
+      by_cases h2 : cur.view.isStrictlyLower r.view = true
+      · simp only [h2, if_true]
+        exact finish_ok hN cur ranges hc hct hg (fun e he => hb e (Or.inr he))
+      · simp only [h2, Bool.false_eq_true, if_false]
+        obtain ⟨d, hd⟩ := difference_ok hB hN cur r hc hct hrm.1 hrm.2.1 hcb hrb
+        have spec := difference_spec cur r hc hct hrm.1 hrm.2.1 (side_of_mutReg hB cur r hc hrm.1 hcb hrb) d hd
+        have hdb : ∀ e ∈ d.bounds, e ∈ B := fun e he => by
+          rcases spec.bounds e he with h' | h'
+          · exact hcb e h'
+          · exact hrb e h'
+        simp only [hd, bind, Except.bind]
+        cases d with
+        | empty =>
+          obtain ⟨res, hres, _⟩ := unionOfFlat_total ranges hg (noLocalLower_of_bounds hN _ hgb)
+          exact ⟨res, hres⟩
+        | single d' =>
+          have hd' := spec.good d' (by simp [VC.flatten])
+          exact rngDiffUnionLoop_total B hB hN rest d' ranges hrestm hd'.1 hd'.2 hg (by
+            intro e he
+            rcases he with h' | h' | h'
+            · exact hrestb e h'
+            · exact hdb e (by simpa [VC.bounds] using h')
+            · exact hgb e h')
+        | union ds =>
+          obtain ⟨x, y, hds, _⟩ := spec.pair ds rfl
+          subst hds
+          simp only [List.head?_cons, List.getLast?_cons_cons, List.getLast?_singleton]
+          have hx := spec.good x (by simp [VC.flatten])
+          have hy := spec.good y (by simp [VC.flatten])
+          have hxb : ∀ e ∈ x.bounds, e ∈ B := fun e he =>
+            hdb e (by simp only [VC.bounds, List.flatMap_cons, List.mem_append]; exact Or.inl he)
+          have hyb : ∀ e ∈ y.bounds, e ∈ B := fun e he =>
+            hdb e (by simp only [VC.bounds, List.flatMap_cons, List.flatMap_nil, List.append_nil, List.mem_append]; exact Or.inr he)
+          have hg' : Good (ranges ++ [x]) := by
+            intro c hc'
+            simp only [List.mem_append, List.mem_singleton] at hc'
+            rcases hc' with h' | rfl
+            · exact hg c h'
+            · exact hx
+          exact rngDiffUnionLoop_total B hB hN rest y (ranges ++ [x]) hrestm hy.1 hy.2 hg' (by
+            intro e he
+            rcases he with h' | h' | h'
+            · exact hrestb e h'
+            · exact hyb e h'
+            · simp only [boundsOf, List.flatMap_append, List.flatMap_cons, List.flatMap_nil, List.append_nil,
+                List.mem_append] at h'
+              rcases h' with h'' | h''
+              · exact hgb e h''
+              · exact hxb e h'')
+
+/-- **`VersionUnion._inverted` always returns** for a union satisfying `UnionOK` none of whose bounds is local -/
+theorem inverted_total (rs : List RC) (hok : UnionOK rs) (hN : NoLocal (boundsOf rs)) :
+    ∃ res, VC.inverted rs = .ok res := by
+  obtain ⟨hm, _, hB⟩ := hok
+  have hany : (RC.rng VRange.any).WF :=
+    ⟨by intro e he; simp [VRange.bounds, VRange.any] at he, by intro m M hm'; simp [VRange.any] at hm'⟩
+  exact rngDiffUnionLoop_total (boundsOf rs) hB hN rs (.rng VRange.any) [] hm hany ⟨fun _ => rfl, fun _ => rfl⟩
+    (by simp [Good]) (by
+      intro e he
+      rcases he with h' | h' | h'
+      · exact h'
+      · simp [RC.bounds, RC.view, VRange.bounds, VRange.any, RC.min, RC.max] at h'
+      · simp [boundsOf] at h')
+
+/-- **`VersionUnion.allows` never raises and is the disjunction over the members, for every version** — for
+a union satisfying `UnionOK` none of whose bounds is a local build (the `not (excluded == v)` path is then never
+taken: an excluded single version is one of the bounds) -/
+theorem union_allows_total (rs : List RC) (hok : UnionOK rs) (hN : NoLocal (boundsOf rs)) (v : Version) :
+    VC.allows (.union rs) v = .ok (rs.any (fun c => c.allows v)) := by
+  obtain ⟨res, hres⟩ := inverted_total rs hok hN
+  obtain ⟨_, g2, _⟩ := inverted_sem rs hok res hres
+  simp only [VC.allows, VC.excludedSingleVersion, hres, bind, Except.bind, pure, Except.pure]
+  cases res with
+  | empty => rfl
+  | union ds => rfl
+  | single c =>
+    cases c with
+    | rng r => rfl
+    | ver ex =>
+      have : ex.isLocal = false := hN ex (g2 ex (by simp [VC.bounds, RC.bounds_ver]))
+      simp [this]
+
 end Poetry
